@@ -15,32 +15,43 @@ theorem isInc_iff (d : Direction) (side : Side) :
 theorem side_dir (d : Direction) : sideToDirection (directionToSide d) = d := by
   cases d <;> rfl
 
+/-- the increase test of `open_position` -/
+theorem isInc3_iff (z : Prop) (d : Direction) (side : Side) :
+    (z ∨ (d = .addToAmm ∧ side = .buy) ∨ (d = .removeFromAmm ∧ side = .sell)) ↔ (z ∨ d = sideToDirection side) := by
+  rw [← isInc_iff]
+
 /-- `open_position`: the in-flight record names the caller's vAMM / account / side; the message is an
-    increase exactly when the reported direction is the side's, otherwise a reduce (position notional
-    above the requested one) or a reversal -/
+    increase exactly when the stored record has size zero (nothing to reverse, whatever its direction) or
+    the reported direction is the side's, otherwise — size non-zero and the direction opposite — a reduce
+    (position notional above the requested one) or a reversal -/
 theorem openPosition_inv (q : Q) (e : E) (env : Env) (s : Nat) (f : Funds) (v : Nat) (side : Side) (m l b : Nat) :
     Post (fun r => r.1.positions = e.positions ∧ r.1.cfg = e.cfg
       ∧ ∃ tmp : TmpSwap, r.1.tmpSwap = some tmp ∧ tmp.vamm = v ∧ tmp.trader = s ∧ tmp.side = side
       ∧ ((∃ N, r.2 = [swapInputMsg v side N b false REPLY_INCREASE]
-            ∧ (getPosition env e v s side).direction = sideToDirection side)
+            ∧ ((getPosition env e v s side).size.isZero = true
+                ∨ (getPosition env e v s side).direction = sideToDirection side))
         ∨ (∃ N, r.2 = [swapInputMsg (getPosition env e v s side).vamm side N b false REPLY_DECREASE]
+            ∧ ¬ (getPosition env e v s side).size.isZero = true
             ∧ (getPosition env e v s side).direction ≠ sideToDirection side
             ∧ ∃ pn u, unwrap (positionNotionalPnl q e (getPosition env e v s side) .spot) = .ok (pn, u) ∧ pn > N)
         ∨ (r.2 = [swapOutputMsg (getPosition env e v s side).vamm
                     (directionToSide (getPosition env e v s side).direction)
                     (getPosition env e v s side).size.value 0 REPLY_REVERSE]
+            ∧ ¬ (getPosition env e v s side).size.isZero = true
             ∧ (getPosition env e v s side).direction ≠ sideToDirection side)))
       (openPosition q e env s f v side m l b) := by
   unfold openPosition
   walk [(
     refine ⟨rfl, rfl, _, rfl, rfl, rfl, rfl, ?_⟩
     first
-      | exact Or.inl ⟨_, rfl, (isInc_iff _ _).1 (by assumption)⟩
+      | exact Or.inl ⟨_, rfl, (isInc3_iff _ _ _).1 (by assumption)⟩
       | (have hgt := ‹_ > _›
-         refine Or.inr (Or.inl ⟨_, rfl, fun hh => absurd ((isInc_iff _ _).2 hh) (by assumption), _, ?_, ?_, hgt⟩)
+         have hni := fun hh => (‹¬ (_ ∨ _ ∨ _)›) ((isInc3_iff _ _ _).2 hh)
+         refine Or.inr (Or.inl ⟨_, rfl, fun hz => hni (Or.inl hz), fun hh => hni (Or.inr hh), _, ?_, ?_, hgt⟩)
          rotate_left
          assumption)
-      | exact Or.inr (Or.inr ⟨rfl, fun hh => absurd ((isInc_iff _ _).2 hh) (by assumption)⟩))]
+      | (have hni := fun hh => (‹¬ (_ ∨ _ ∨ _)›) ((isInc3_iff _ _ _).2 hh)
+         exact Or.inr (Or.inr ⟨rfl, fun hz => hni (Or.inl hz), fun hh => hni (Or.inr hh)⟩)))]
 
 /-- `close_position`: whole close, or a partial close for the quote of `|size|·plr/D` base -/
 theorem closePosition_inv (q : Q) (e : E) (env : Env) (s v l : Nat) :
